@@ -59,6 +59,10 @@ struct Plan {
     /// read-half runs: the I/O timeout handed to receive_message_from_read_half (0 = one hour)
     #[serde(default)]
     rh_timeout_ms: u64,
+    /// receive_message runs: the connection's I/O timeout (0 = one hour). When set, idle gaps beyond
+    /// it occur between frames (never inside one) and timed-out calls are repeated
+    #[serde(default)]
+    conn_timeout_ms: u64,
     #[serde(default)]
     salt: u64,
 }
@@ -111,7 +115,7 @@ impl Scenario for C06 {
                 gap_ms: *r.pick(&[0u32, 0, 0, 1, 30]),
             });
         }
-        let mut p = Plan { header_mode, client: end(r), server: end(r), cap: *r.pick(&[0u32, 0, 4096]), items, interleave: r.chance(1, 2), read_half: !header_mode && r.chance(1, 3), raw: r.chance(1, 10), rh_timeout_ms: 0, salt: r.next_u64() };
+        let mut p = Plan { header_mode, client: end(r), server: end(r), cap: *r.pick(&[0u32, 0, 4096]), items, interleave: r.chance(1, 2), read_half: !header_mode && r.chance(1, 3), raw: r.chance(1, 10), rh_timeout_ms: 0, conn_timeout_ms: 0, salt: r.next_u64() };
         if p.read_half && r.chance(1, 2) {
             // a short I/O timeout, idle gaps beyond it, and a network whose mid-frame delays stay far below it
             p.rh_timeout_ms = *r.pick(&[300u64, 2_000]);
@@ -127,6 +131,20 @@ impl Scenario for C06 {
                 }
             }
         }
+        if !p.read_half && !p.raw && r.chance(1, 6) {
+            // short connection timeout, idle gaps beyond it, and a link on which a frame always arrives whole
+            p.conn_timeout_ms = *r.pick(&[300u64, 2_000]);
+            p.client.spurious_16 = 0;
+            p.client.max_delay_ms = 0;
+            p.client.latency_ms = 0;
+            p.server = EndCfg { chunking: p.server.chunking, ..Default::default() };
+            p.cap = 0;
+            p.interleave = false;
+            for it in p.items.iter_mut() {
+                it.gap_ms = if r.chance(1, 2) { (p.conn_timeout_ms * *r.pick(&[1u64, 2, 4])) as u32 + r.below(40) as u32 } else { 0 };
+                it.n_frags = 0;
+            }
+        }
         serde_json::to_value(p).unwrap()
     }
 
@@ -135,6 +153,9 @@ impl Scenario for C06 {
             Ok(p) => p,
             Err(_) => return RunOutput::default(),
         };
+        if p.conn_timeout_ms > 0 && (p.server.latency_ms > 0 || p.server.stall_16 > 0 || p.server.short_writes || p.client.spurious_16 > 0 || p.client.latency_ms > 0 || p.items.iter().any(|i| i.n_frags > 0)) {
+            return RunOutput::default();
+        }
         if p.items.is_empty() || p.items.len() > 64 || (p.cap > 0 && p.cap < 512) {
             return RunOutput::default();
         }
@@ -151,7 +172,7 @@ impl Scenario for C06 {
             components_stubbed: &["TCP (SimNet)", "EPMD (stub)", "remote node (conforming sender model with an independent encoder)"],
             assumptions: &["junk frames never touch atom-cache slots the sender model uses (reserved segment 7) and use sequence ids disjoint from valid fragments", "fragmented messages use header entries in reserved segment 6 so that the known fragment defect cannot cascade into later messages"],
             fault_prefixes: &["fault.", "net."],
-            expected_probes: &["probe.c06.ok_passthrough", "probe.c06.ok_header", "probe.c06.tick_skipped", "probe.c06.junk_rejected", "probe.c06.message_after_junk_intact", "probe.c06.fragmented_sent", "probe.c06.read_half_api", "probe.c06.raw_api", "probe.c06.junk_with_intact_header", "probe.c06.read_half_short_timeout"],
+            expected_probes: &["probe.c06.ok_passthrough", "probe.c06.ok_header", "probe.c06.tick_skipped", "probe.c06.junk_rejected", "probe.c06.message_after_junk_intact", "probe.c06.fragmented_sent", "probe.c06.read_half_api", "probe.c06.raw_api", "probe.c06.junk_with_intact_header", "probe.c06.read_half_short_timeout", "probe.c06.idle_timeout_retried"],
         }
     }
 }
@@ -367,9 +388,13 @@ fn short_expect(e: &Expect) -> String {
 }
 
 pub async fn connect_client(w: &Arc<World>, header_mode: bool, fragments: bool) -> Option<Connection> {
+    connect_client_with_timeout(w, header_mode, fragments, 3_600_000).await
+}
+
+pub async fn connect_client_with_timeout(w: &Arc<World>, header_mode: bool, fragments: bool, timeout_ms: u64) -> Option<Connection> {
     install_epmd(w, 3, "peer", 5555, true);
     let flags = DistributionFlags::default().as_u64() | if header_mode { FLAG_DIST_HDR_ATOM_CACHE } else { 0 } | if fragments { FLAG_FRAGMENTS } else { 0 };
-    let cfg = ConnectionConfig::new(SUT_NAME, PEER_NAME, COOKIE).with_flags(DistributionFlags::new(flags)).with_timeout(Duration::from_secs(3600));
+    let cfg = ConnectionConfig::new(SUT_NAME, PEER_NAME, COOKIE).with_flags(DistributionFlags::new(flags)).with_timeout(Duration::from_millis(timeout_ms));
     let mut conn = Connection::new(cfg);
     match conn.connect().await {
         Ok(()) => Some(conn),
@@ -388,6 +413,29 @@ pub async fn receive_all(conn: &mut Connection, n: usize) -> Vec<Got> {
             Ok((c, p)) => Ok((to_val(&c.to_term()), p.as_ref().map(to_val))),
             Err(e) => Err(e.to_string()),
         });
+    }
+    out
+}
+
+/// Like receive_all, for a connection with a short I/O timeout on an idle-prone link: a call
+/// that times out while the peer is idle is simply repeated (the caller's view of "keep
+/// receiving"); everything else is recorded. `n` results are collected.
+pub async fn receive_all_retrying_idle_timeouts(w: &Arc<World>, conn: &mut Connection, n: usize) -> Vec<Got> {
+    let mut out = Vec::new();
+    let mut calls = 0;
+    while out.len() < n && calls < 50 * n + 1000 {
+        calls += 1;
+        match conn.receive_message().await {
+            Ok((c, p)) => out.push(Ok((to_val(&c.to_term()), p.as_ref().map(to_val)))),
+            Err(e) => {
+                let text = e.to_string();
+                if matches!(e, edp_client::Error::Timeout(_)) {
+                    w.stat("probe.c06.idle_timeout_retried");
+                    continue;
+                }
+                out.push(Err(text));
+            }
+        }
     }
     out
 }
@@ -411,7 +459,8 @@ async fn scenario(w: &Arc<World>, p: &Plan) {
             },
         );
     }
-    let Some(mut conn) = connect_client(w, p.header_mode, true).await else { return };
+    let conn = if p.conn_timeout_ms > 0 { connect_client_with_timeout(w, p.header_mode, true, p.conn_timeout_ms).await } else { connect_client(w, p.header_mode, true).await };
+    let Some(mut conn) = conn else { return };
     // the expectation list exists once the peer has accepted the connection
     let n = loop {
         if let Some(e) = script.lock().unwrap().as_ref() {
@@ -459,6 +508,8 @@ async fn scenario(w: &Arc<World>, p: &Plan) {
             });
         }
         out
+    } else if p.conn_timeout_ms > 0 {
+        receive_all_retrying_idle_timeouts(w, &mut conn, n + 1).await
     } else {
         receive_all(&mut conn, n + 1).await
     };
